@@ -137,6 +137,25 @@ def make_replayer():
     return replayer
 
 
+def _demote_form(report):
+    """Obligations of the structural contracts that fail because the code
+    is not of the documented FORM (goal constant false, no counter-model) are
+    violations only with a failing input from the battery; otherwise they are
+    reported UNDECIDED: an equivalent rewrite must not raise an alarm.
+    Obligations that z3 refutes with values stay violations."""
+    from engine.checks import py_common
+    from contracts.py import (aslinearineq_spec, function_index_spec,
+                              lp_assembly_spec, objective_spec,
+                              relational_spec)
+    form = set()
+    for m_ in (aslinearineq_spec, function_index_spec, lp_assembly_spec,
+               objective_spec, relational_spec):
+        form |= m_.FORM_REFUTED
+    py_common.demote_unconfirmed_shape_checks(
+        report, lambda ob: ob.text in form,
+        'the code is not of the form the contract documents')
+
+
 def run(report, tier, seed):
     reps = pyside.run_tasks(py_common.tasks_for(FUNCS, tier))
     py_common.feed(report, reps, props=('C11',))
@@ -244,6 +263,7 @@ def run(report, tier, seed):
                       'contracts/py/keytolist_spec.py', by=['z3'] if
                       status == 'proved' else [], detail=detail))
     report.replayer = make_replayer()
+    _demote_form(report)
     report.floor = 8
     report.extra['explanation'] = (
         'The real body of _lin._addterm is executed with symbolic matrices '
